@@ -29,7 +29,7 @@ PLAN_OPS = set(OP_VARIANT)
 def builder_support(prog):
     """from the MIR of the executor builder: executable operators, and per join operator the executable join types and
     whether the residual condition must be literally `true`"""
-    b = prog.body(BUILD)
+    b = prog.body(BUILD, raw=True)      # as compiled: the join helpers (build_hashjoin ..) are looked at one by one below
     if b is None:
         return None
     sw = [(i, bl['term']) for i, bl in enumerate(b.blocks) if bl['term']['k'] == 'switch' and bl['term'].get('adt') == 'planner::Expr']
